@@ -13,6 +13,10 @@ L_BIG = "P0.2 P1.2 P2.2 P0.2 P1.2 P2.2 F P0.2 P1.2 P2.2 F"
 # two overlapping level-0 tables sharing a key (recovery writes its table to level 0), nothing below
 L_OVL = "P0.1 P1.1 O P1.1 P3.1 O"
 L_OVL2 = "P1.1 P2.1 O P0.1 P1.1 O"
+# 6 keys; files g=[b..e] in level 2, x1=[a..k] in level 1, F=[c..k] in level 0, a snapshot pins the older version of k;
+# with 2200-byte tables a level-0 compaction cuts its outputs as [a..c] [d..k@new] [k@old]: one user key split over two files
+L_SPLIT = "P1.1 P4.1 F P0.2 P5.2 F S P2.2 P3.2 P5.2 F"
+SPLIT_CFG = "B1,maxfile=2200,uni=3~rwr"
 # a MANIFEST that grows past one 32 KiB log block (300-byte keys, ~100 edits), with and without reuse after a reopen
 L_LONGMAN = "P1.1 F O 50*(P1.1 F) O"
 LONGMAN_ITEMS = ["B1,reuse=1,uni=2@1^" + L_LONGMAN, "B1,uni=2@1^" + L_LONGMAN]
@@ -31,7 +35,7 @@ def c01_plan(tier):
     if tier == "quick":
         it = ["B1@4/3"] + ["B1,%s@0/2" % t for t in TOGGLES] + ["B2@0/2"]
         it += ["B1@2^" + L_DEEP, "B1,bloom=1,cache=1,mmap=0,snappy=1@2^" + L_DEEP, "B1@2^" + L_TOMB]
-        it += ["B1~rwr@0/2^" + L_OVL, "B1~rwr@0/2^" + L_OVL2, "B1~rwr@0/1^" + L_DEEP, NOCASE + "@0/2"] + LONGMAN_ITEMS
+        it += ["B1~rwr@0/2^" + L_OVL, "B1~rwr@0/2^" + L_OVL2, "B1~rwr@0/1^" + L_DEEP, NOCASE + "@0/2"] + LONGMAN_ITEMS + [SPLIT_CFG + "@0/2^" + L_SPLIT]
     else:
         it = ["B1@5/4"] + ["B1,%s@4/3" % t for t in TOGGLES] + ["B2@3/3", "B2,snappy=1,bloom=1@3/2"]
         # full cross product of the boolean toggles at depth 2 (no dedup)
@@ -43,6 +47,7 @@ def c01_plan(tier):
             if len(t) >= 2:
                 it.append("B1,%s@0/2" % ",".join(t))
         it += [NOCASE + "@4/3", NOCASE + "@2^P0.1 F P1.1 F P3.1 F P4.1 F"] + LONGMAN_ITEMS + ["B1,reuse=1,uni=2@2^" + L_LONGMAN]
+        it += [SPLIT_CFG + "@0/3^" + L_SPLIT, SPLIT_CFG + "@0/2^" + L_SPLIT + " R0:5:5"]
         it += ["B1~rwr@0/3^" + L_OVL, "B1~rwr@0/3^" + L_OVL2, "B1~rwr@0/2^" + L_DEEP, "B1,cmp=1~rwr@0/2^" + L_OVL, "B1~rwr@3/2"]
         for L in (L_DEEP, L_TOMB, L_SNAP, L_BIG):
             it += ["B1@3^" + L, "B1,bloom=1,cache=1,mmap=0,snappy=1@3^" + L, "B1,cmp=1@2^" + L]
@@ -270,8 +275,8 @@ ENGINES["fault"] = "E4: fault-site enumerator over the call log of the in-memory
 
 def c14_plan(tier):
     if tier == "quick":
-        return plan(["B1@4/3", "B1,snappy=1,bloom=1@0/2", "B1,cmp=1@0/2", NOCASE + "@0/2", "B2@0/2"] + LONGMAN_ITEMS + ["B1@2^" + L_DEEP, "B1@2^" + L_BIG, "B1@2^" + L_SNAP])
-    return plan(["B1@5/4", "B1,snappy=1,bloom=1@4/3", "B1,cmp=1@4/3", NOCASE + "@3/3", "B1,reuse=1@3/3", "B2@3/2", "B1@3^" + L_DEEP, "B1@3^" + L_BIG,
+        return plan(["B1@4/3", "B1,snappy=1,bloom=1@0/2", "B1,cmp=1@0/2", NOCASE + "@0/2", "B2@0/2"] + LONGMAN_ITEMS + [SPLIT_CFG + "@0/2^" + L_SPLIT, "B1@2^" + L_DEEP, "B1@2^" + L_BIG, "B1@2^" + L_SNAP])
+    return plan(["B1@5/4", "B1,snappy=1,bloom=1@4/3", "B1,cmp=1@4/3", NOCASE + "@3/3", "B1,reuse=1@3/3", "B2@3/2", SPLIT_CFG + "@0/3^" + L_SPLIT, "B1@3^" + L_DEEP, "B1@3^" + L_BIG,
                  "B1@3^" + L_SNAP, "B1,cmp=1@3^" + L_DEEP, "B1,snappy=1,bloom=1@3^" + L_BIG])
 
 
